@@ -11,7 +11,6 @@ import (
 	"strings"
 
 	"pgregory.net/rapid"
-
 )
 
 type sk int
@@ -52,11 +51,11 @@ type wfield struct {
 	ty   *wty
 }
 
-func scalar(s sk) *wty          { return &wty{k: tScalar, s: s} }
-func vec(n int, s sk) *wty      { return &wty{k: tVec, s: s, n: n} }
-func mat(c, r int) *wty         { return &wty{k: tMat, s: kF32, n: c, r: r} }
-func arr(e *wty, cnt int) *wty  { return &wty{k: tArr, elem: e, cnt: cnt} }
-func (t *wty) isNumeric() bool  { return (t.k == tScalar || t.k == tVec) && t.s != kBool }
+func scalar(s sk) *wty           { return &wty{k: tScalar, s: s} }
+func vec(n int, s sk) *wty       { return &wty{k: tVec, s: s, n: n} }
+func mat(c, r int) *wty          { return &wty{k: tMat, s: kF32, n: c, r: r} }
+func arr(e *wty, cnt int) *wty   { return &wty{k: tArr, elem: e, cnt: cnt} }
+func (t *wty) isNumeric() bool   { return (t.k == tScalar || t.k == tVec) && t.s != kBool }
 func (t *wty) isValueType() bool { return t.k == tScalar || t.k == tVec || t.k == tMat }
 func (t *wty) comps() int {
 	switch t.k {
@@ -144,29 +143,29 @@ type iface struct {
 }
 
 type gen struct {
-	t      *rapid.T
-	sb     strings.Builder
-	stage  string
-	scopes [][]scopeVar
-	places []place
-	structs []*wty
-	helpers []helper
-	resources []resource
-	budget int // statements left
-	maxDepth int
-	inLoop int
-	inHelper bool
-	retTy *wty
-	nameN int
-	feat  map[string]bool
-	bigLits bool
+	t            *rapid.T
+	sb           strings.Builder
+	stage        string
+	scopes       [][]scopeVar
+	places       []place
+	structs      []*wty
+	helpers      []helper
+	resources    []resource
+	budget       int // statements left
+	maxDepth     int
+	inLoop       int
+	inHelper     bool
+	retTy        *wty
+	nameN        int
+	feat         map[string]bool
+	bigLits      bool
 	allowAtomics bool
-	av map[string]bool // open known-finding tags the generator stays away from
-	fnDepth int
-	inSwitch int
-	retExpr func(g *gen) string
+	av           map[string]bool // open known-finding tags the generator stays away from
+	fnDepth      int
+	inSwitch     int
+	retExpr      func(g *gen) string
 	allowDiscard bool
-	idxNest int
+	idxNest      int
 	// avoidFatal: stay away from constructs on which the backend dies with an
 	// unrecoverable stack overflow (a never-initialised local whose only store
 	// reads the local itself: "var v: vec4<f32>; v = v + x;").  That crash is
@@ -174,7 +173,7 @@ type gen struct {
 	avoidFatal bool
 }
 
-func (g *gen) n(lo, hi int) int { return rapid.IntRange(lo, hi).Draw(g.t, "n") }
+func (g *gen) n(lo, hi int) int    { return rapid.IntRange(lo, hi).Draw(g.t, "n") }
 func (g *gen) chance(pct int) bool { return rapid.IntRange(0, 99).Draw(g.t, "p") < pct }
 func (g *gen) fresh(prefix string) string {
 	g.nameN++
@@ -439,8 +438,8 @@ func litValue(l string) string {
 
 // ---------------------------------------------------------------- scope
 
-func (g *gen) push()  { g.scopes = append(g.scopes, nil) }
-func (g *gen) pop()   { g.scopes = g.scopes[:len(g.scopes)-1] }
+func (g *gen) push() { g.scopes = append(g.scopes, nil) }
+func (g *gen) pop()  { g.scopes = g.scopes[:len(g.scopes)-1] }
 func (g *gen) declare(v scopeVar) {
 	g.scopes[len(g.scopes)-1] = append(g.scopes[len(g.scopes)-1], v)
 }
